@@ -20,7 +20,7 @@ K_SUPPORT = ['a3_varint_i16', 'a3_varint_i32', 'a3_varint_u32', 'a3_varint_i64',
 K_C11_W = ['c11_w_bool', 'c11_w_byte_i8', 'c11_w_i16', 'c11_w_i32', 'c11_w_i64', 'c11_w_double', 'c11_w_uuid', 'c11_w_field',
            'c11_w_containers', 'bnd_c11_w_bytes_le5']
 K_C11_R = ['c11_r_i8_bool_byte', 'c11_r_i16', 'c11_r_i32', 'c11_r_i64_double', 'c11_r_uuid']
-K_PB_MORE = ['pb_fixed_truncated', 'pb_varint_chain', 'bnd_pb_merge_repeated_packed', 'bnd_pb_map_len_btree', 'bnd_pb_map_len_btree+pbdef']
+K_PB_MORE = ['pb_fixed_truncated', 'pb_wrappers_len', 'pb_varint_chain', 'bnd_pb_merge_repeated_packed', 'bnd_pb_map_len_btree', 'bnd_pb_map_len_btree+pbdef']
 K_PB = ['pb_varint_roundtrip', 'pb_varint_decode_total', 'pb_varint_decode_value', 'pb_bool', 'pb_int32', 'pb_int64', 'pb_uint32', 'pb_uint64', 'pb_sint32', 'pb_sint64',
         'pb_fixed32', 'pb_sfixed32', 'pb_float', 'pb_fixed64', 'pb_sfixed64', 'pb_double']
 
